@@ -21,12 +21,28 @@
     mgr char_deriv <a> <c> | str_deriv <a> [s]           => <id>
     mgr class_deriv <a> <I<k>|C>           => <id> | Err:BadClassId
     mgr str_in_re <a> [s]                  => 0|1
+    -- operations of Model/ManagerOps.lean (state threaded through every derivative call; a panic
+    -- leaves the state of the moment of the panic; fuel FUEL for the searches)
+    mgr class_deriv_unchecked <a> <I<k>|C> => <id> | PANIC
+    mgr set_deriv <a> <lo>-<hi>            => <id> | Err:<kind> | PANIC
+    mgr set_deriv_unchecked <a> <lo>-<hi>  => <id> | PANIC
+    mgr iter_derivs <a>                    => [ids]            (BFS order)
+    mgr is_empty_re <a>                    => 0|1
+    mgr get_string <a>                     => none | some:[s]
+    mgr start_char <a> <c>                 => 0|1
+    mgr start_class <a> <I<k>|C>           => 0|1 | Err:BadClassId
+    mgr compile <a>                        => <automaton>      (encoding of family `aut`)
+    mgr try_compile <a> <n>                => none | some:<automaton>
+    mgr re_search <a> [s] <k> <0|1>        => none | some:<i>:<j>
+    mgr replace_re [s] <a> [t] | replace_re_all [s] <a> [t]   => [s']
     mgr nullable <a>                       => 0|1
     mgr size                               => <number of terms>
     mgr table                              => <enc>       encoding of family `store`
 -/
 import Driver.Proto
+import Driver.FamAutomaton
 import SmtModel.Model.Manager
+import SmtModel.Model.ManagerOps
 
 namespace Driver.FamMgr
 open Smt Driver
@@ -65,6 +81,32 @@ def rCS (s : String) : Option CharSet :=
   match s.splitOn "-" with
   | [a, b] => do let a ← rNat a; let b ← rNat b; pure ⟨a, b⟩
   | _ => none
+
+def pErr : Err → String
+  | .UndefinedDerivative => "Err:UndefinedDerivative"
+  | .EmptyComplementaryClass => "Err:EmptyComplementaryClass"
+  | .AmbiguousCharSet => "Err:AmbiguousCharSet"
+  | .BadClassId => "Err:BadClassId"
+  | .NonDisjointCharSets => "Err:NonDisjointCharSets"
+  | .MissingDefaultSuccessor => "Err:MissingDefaultSuccessor"
+
+def pRes {α} (f : α → String) : RE.Res α → String
+  | .ok a => f a
+  | .panic => "PANIC"
+  | .outOfFuel => "OUTOFFUEL"
+
+/-- fuel of the searches (number of terms popped) -/
+def FUEL : Nat := 20000
+
+/-- a search: (new state, result) -/
+def retR {α} (f : α → String) (r : Mgr × RE.Res α) : Mgr × Option Reply := (r.1, ok (pRes f r.2))
+
+/-- a derivative entry point with an error channel -/
+def retE (st : Mgr) (r : Option (Mgr × Except Err Nat)) : Mgr × Option Reply :=
+  match r with
+  | some (m, .ok i) => (m, ok (toString i))
+  | some (m, .error e) => (m, ok (pErr e))
+  | none => (st, ok "PANIC")
 
 /-- a call that returns (new state, id) -/
 def ret (r : Mgr × Nat) : Mgr × Option Reply := (r.1, ok (toString r.2))
@@ -179,6 +221,61 @@ def handle (st : Mgr) (op : String) (args : List String) : Mgr × Option Reply :
       if (st.derivClass a).validClassId cid then retO st (st.cachedDerivM a cid)
       else (st, ok "Err:BadClassId")
     | _, _ => bad
+  | "class_deriv_unchecked", [a, cid] =>
+    match rNat a, rCid cid with
+    | some a, some cid => retO st (st.classDerivativeUncheckedM a cid)
+    | _, _ => bad
+  | "set_deriv", [a, s] =>
+    match rNat a, rCS s with
+    | some a, some s => retE st (st.setDerivativeM a s)
+    | _, _ => bad
+  | "set_deriv_unchecked", [a, s] =>
+    match rNat a, rCS s with
+    | some a, some s => retO st (st.setDerivativeUncheckedM a s)
+    | _, _ => bad
+  | "iter_derivs", [a] =>
+    match rNat a with
+    | some a => retR pNats (st.iterDerivativesM FUEL a)
+    | _ => bad
+  | "is_empty_re", [a] =>
+    match rNat a with
+    | some a => retR pBool (st.isEmptyReM FUEL a)
+    | _ => bad
+  | "get_string", [a] =>
+    match rNat a with
+    | some a => retR (pOpt pNats) (st.getStringM FUEL a)
+    | _ => bad
+  | "start_char", [a, c] =>
+    match rNat a, rNat c with
+    | some a, some c => retR pBool (st.startCharM FUEL a c)
+    | _, _ => bad
+  | "start_class", [a, cid] =>
+    match rNat a, rCid cid with
+    | some a, some cid =>
+      retR (fun r => match r with | .ok b => pBool b | .error e => pErr e) (st.startClassM FUEL a cid)
+    | _, _ => bad
+  | "compile", [a] =>
+    match rNat a with
+    | some a => retR FamAutomaton.pAut (st.compileM FUEL a)
+    | _ => bad
+  | "try_compile", [a, n] =>
+    match rNat a, rNat n with
+    | some a, some n => retR (pOpt FamAutomaton.pAut) (st.tryCompileM FUEL a n)
+    | _, _ => bad
+  | "re_search", [a, s, k, allow] =>
+    match rNat a, rNats s, rNat k, rBool allow with
+    | some a, some s, some k, some allow =>
+      let r := st.naiveReSearchM a s k allow
+      (r.1, ok (pOpt (fun (i, j) => s!"{i}:{j}") r.2))
+    | _, _, _, _ => bad
+  | "replace_re", [s, a, t] =>
+    match rNats s, rNat a, rNats t with
+    | some s, some a, some t => let r := st.strReplaceReM s a t; (r.1, ok (pNats r.2))
+    | _, _, _ => bad
+  | "replace_re_all", [s, a, t] =>
+    match rNats s, rNat a, rNats t with
+    | some s, some a, some t => let r := st.strReplaceReAllM s a t; (r.1, ok (pPanic pNats r.2))
+    | _, _, _ => bad
   | "str_in_re", [a, s] =>
     match rNat a, rNats s with
     | some a, some s => let r := st.strInReM s a; (r.1, ok (pBool r.2))
